@@ -14,6 +14,8 @@ What `internal/config/parser` does, as small total functions (core Lean only, th
 * `envTree` – all variables merged (the loader goes through Go maps, i.e. an arbitrary order; the model folds over the
   enumeration order and `Props/C20.lean` proves that the order is irrelevant).
 * `load` – `configloader.go` `Load`: defaults, then the file, then the environment, each merged with `merge`.
+* `trimSpace`, `stripPrefix?`, `selectEnv`, `loadP` – `options.go` `WithEnvPrefix` and the selection of the variables of the
+  process by koanf's `env` provider: the configured prefix, trimmed, compared as written.
 * `nullText`, `Val.nil`, `holeVar`, `envVal` – a value that is **defined to be nil** (an empty variable, `null`, `~`; a map
   entry `k: nil` in Go) as opposed to nothing at all (`Val.null`: absent key, unfilled list position).
 
@@ -286,5 +288,39 @@ decreasing_by omega
 /-- `Load`: defaults (the struct passed in), then the file (`null` when there is none), then the environment -/
 def load (defaults file : Val) (env : Env) : Val :=
   merge (merge defaults file) (envTree env.entries)
+
+/-! ## options.go / env.go: the prefix of the variables
+
+`WithEnvPrefix` trims the configured prefix (`strings.TrimSpace`) and keeps it as written otherwise; koanf's `env`
+provider takes exactly the variables of the process whose name starts with it (`strings.HasPrefix`, case-sensitive) and
+`koanfFromEnv` removes it once (`strings.TrimPrefix`) before the name is normalised. An empty prefix selects every
+variable of the process. -/
+
+/-- white space `strings.TrimSpace` removes (the ASCII part and the two Latin-1 spaces) -/
+def isSpace (c : Char) : Bool :=
+  c == ' ' || c == '\t' || c == '\n' || c == '\r' || c == '\x0b' || c == '\x0c' || c == '\u0085' || c == '\u00a0'
+
+/-- `strings.TrimSpace` -/
+def trimSpace (s : List Char) : List Char :=
+  ((s.dropWhile isSpace).reverse.dropWhile isSpace).reverse
+
+/-- `strings.HasPrefix(name, pre)` and `strings.TrimPrefix(name, pre)` in one: the rest of the name, `none` when the
+    name does not start with `pre` (character by character, nothing is folded) -/
+def stripPrefix? : List Char → List Char → Option (List Char)
+  | [], name => some name
+  | _ :: _, [] => none
+  | p :: ps, c :: cs => if p = c then stripPrefix? ps cs else none
+
+/-- the environment of the process: full variable names and their values (after YAML typing) -/
+abbrev ProcEnv := List (List Char × String)
+
+/-- the variables the loader takes when `configured` is what the operator passed as prefix: those whose name starts
+    with the trimmed prefix, in the order of enumeration, with the prefix removed -/
+def selectEnv (configured : List Char) (penv : ProcEnv) : Env :=
+  penv.filterMap fun e => (stripPrefix? (trimSpace configured) e.1).map fun n => (n, e.2)
+
+/-- `Load` of a loader created with `WithEnvPrefix(configured)` in a process whose environment is `penv` -/
+def loadP (defaults file : Val) (configured : List Char) (penv : ProcEnv) : Val :=
+  load defaults file (selectEnv configured penv)
 
 end Heimdall.Config
